@@ -82,7 +82,13 @@ pub fn predicate(id: &str, v: &Violation) -> bool {
                 && sig_bool(v, "finite") == Some(true)
                 && (sig_bool(v, "on_alternate_branch") == Some(true)
                     // ... or the root itself, pulled earlier through such a branch
-                    || (sig_bool(v, "is_root_node") == Some(true) && sig_bool(v, "graph_has_alternates") == Some(true)))
+                    || (sig_bool(v, "is_root_node") == Some(true) && sig_bool(v, "graph_has_alternates") == Some(true))
+                    // ... or a node of the primary path behind a pulled-back root: negative, but not below the root's own time
+                    || (sig_bool(v, "graph_has_alternates") == Some(true)
+                        && match (sig_f(v, "value"), sig_f(v, "root_time_sched")) {
+                            (Some(x), Some(r)) => r < 0.0 && x >= r - 1e-9,
+                            _ => false,
+                        }))
                 && match (sig_f(v, "value"), sig_f(v, "max_time_sched")) {
                     (Some(x), Some(m)) => x < 0.0 && x >= -m.max(1.0),
                     _ => false,
@@ -135,4 +141,14 @@ pub fn predicate(id: &str, v: &Violation) -> bool {
 /// the open finding (if any) that this violation is an instance of
 pub fn match_open<'a>(ff: &'a FindingsFile, v: &Violation) -> Option<&'a Finding> {
     ff.findings.iter().find(|f| f.status == "open" && f.property == v.property && predicate(&f.id, v))
+}
+
+
+/// id of the open finding a violation is an instance of, from a process-wide copy of the findings file.
+/// Used while a run is recorded: an instance of a known finding must not stand in for a different
+/// violation of the same clause later in the same run.
+pub fn classify(v: &Violation) -> Option<String> {
+    static FF: std::sync::OnceLock<FindingsFile> = std::sync::OnceLock::new();
+    let ff = FF.get_or_init(|| load(&crate::root()));
+    match_open(ff, v).map(|f| f.id.clone())
 }
